@@ -348,6 +348,33 @@ def evalweb_scenario(rng, root, partial_rvalues=None):
     return reqs
 
 
+def loopcarried_scenario(rng, root, link=None, base=None):
+    """a cached project module with a loop-carried module-level name that is rebound again after the
+    loop; its loop binding goes through an instance attribute assigned from that same name (evaluation
+    cycles through MultiName alternatives, AssignedAttribute.resolve, MultiValue._rvalues, class objects
+    that keep the EvalCtx of the request that created them)"""
+    link = rng.random() < 0.5 if link is None else link
+    base = rng.random() < 0.6 if base is None else base
+    L = ['import sys', 'flag = len(sys.argv) > 5']
+    if base:
+        L += ['class Base(object):', "    kind = 'base'"]
+    L += ['class W:', '    def __init__(self):', '        self.deep = 1',
+          'class X:', '    def __init__(self):', '        self.x = 1',
+          'class Y:', '    def __init__(self):', '        self.y = 1',
+          'class A%s:' % ('(Base)' if base else ''), '    def __init__(self):', '        self.a = 1'] + ([] if link else ['        self.w = W()'])
+    L += ['class B:', '    def __init__(self):', '        self.b = 1'] + (['        self.link = X()'] if link else [])
+    L += ['class C:', '    def __init__(self):', '        self.c = 1'] + (['        self.link = Y()'] if link else [])
+    L += ['class H:', '    def __init__(self):', '        self.v = cur%s' % ('.link' if link else ''),
+          'def step():', '    if flag:', '        t = B()', '    else:', '        t = H().v.w', '    return t',
+          'cur = A()', '%s flag:' % rng.choice(['while', 'while']), '    cur = step()', 'snapshot = cur', 'if flag:', '    cur = C()']
+    open(os.path.join(root, 'm.py'), 'w').write('\n'.join(L) + '\n')
+    fn = os.path.join(root, 'main.py')
+    exprs = ['m.snapshot.', 'm.H().v.', 'm.B().', 'm.cur.'] + (['m.A().'] if base else ['m.C().'])
+    reqs = [['assist', 'import m\n%s\n' % e, [2, len(e)], fn] for e in exprs]
+    reqs.append(['location', 'import m\nm.snapshot.a\n', [2, 12], fn])
+    return reqs
+
+
 def project_histories(ctx, nproj, nseq):
     """multi-module projects; the order of assist / location / lint requests on one long-lived
     Project is permuted and every answer compared with a fresh Project's"""
@@ -392,7 +419,9 @@ def project_histories(ctx, nproj, nseq):
     for pi in range(nproj):
         for kind, gen in (('relimport', relimport_scenario), ('instance', instance_scenario),
                           ('starcycle', starcycle_scenario), ('qualified', qualified_import_scenario),
-                          ('evalweb', evalweb_scenario)):
+                          ('evalweb', evalweb_scenario),
+                          ('loopcarried', lambda r, d: loopcarried_scenario(r, d, link=False)),
+                          ('loopcarried-link', lambda r, d: loopcarried_scenario(r, d, link=True, base=True))):
             root = os.path.join(ctx.scratch, 'scen_%s%d' % (kind, pi))
             os.makedirs(root)
             reqs = gen(ctx.rng, root)
@@ -403,6 +432,9 @@ def project_histories(ctx, nproj, nseq):
                 for j in idx:
                     if i != j and ctx.rng.random() < 0.25:
                         seqs.append([i, j, i])
+            if kind.startswith('loopcarried'):          # every history of three different requests
+                import itertools as _it
+                seqs += [list(t) for t in _it.permutations(idx, 3)]
             for _ in range(nseq):
                 p = idx[:]
                 ctx.rng.shuffle(p)
